@@ -20,8 +20,8 @@ Definition fold_correct : Prop :=
 Definition fold_total : Prop :=
   forall op l r e, constant_fold_binary_int_op op l r <> Crash e.
 
-(* the float folding code never raises -- FALSE on the current tree (Properties.fold_float_never_raises_refuted, F7:
-   `X: Final = 10**400 + 1.0` is an INTERNAL ERROR); proved instead: fold_float_crash_only_conversion, fold_float_pow_never_raises *)
+(* the float folding code never raises: proved (Properties.fold_float_never_raises) since the fix of F7
+   (`X: Final = 10**400 + 1.0` used to be an INTERNAL ERROR: OverflowError of the int -> float conversion) *)
 Definition fold_float_total : Prop :=
   forall fo op l r e, pow_contract fo -> constant_fold_binary_float_op fo op l r <> Crash e.
 (* `**` on floats is folded conservatively (0.0 ** 2.0 and (-2.0) ** 2.0 are not folded although CPython computes them):
